@@ -296,6 +296,13 @@ func (c10) Generate(rng *rand.Rand, tier string, st *Stats) []Case {
 		mk("corpus-reconnect-twice-"+kind, [][]string{c10op("message", "o1"), {"newsession", kind}, c10op("message", "o2"), {"newsession", "same"}, {"ack", "1"}, {"newsession", kind}, {"sendraw", hx("<z/>")}, {"ack", "1"}})
 		st.Inc("reconnect_" + kind)
 	}
+	// held stanzas with printf verbs and escapes in them: transmitted again exactly as they were
+	mk("corpus-percent-in-held", [][]string{{"sendraw", hx("<message id='p1'><body>100% sure, %s %d %v %%</body></message>")}, c10op("message", "50%20off"),
+		{"sendraw", hx("<x a='%!(EXTRA)'/>")}, {"ack", "0"}, {"ack", "1"}, {"ack", "2"}, {"ack", "3"}})
+	// an acknowledgement that counts MORE than was sent (the server also counts what never went through the queue),
+	// then more stanzas: their numbers go on from what was sent, an acknowledgement that covers them discards them
+	mk("corpus-ack-ahead", [][]string{{"sendraw", hx("<a1/>")}, {"sendraw", hx("<a2/>")}, {"ack", "5"}, {"sendraw", hx("<a3/>")}, {"ack", "5"}, {"ack", "3"},
+		{"sendraw", hx("<a4/>")}, {"ack", "3"}, {"ack", "4"}})
 	// bounded-exhaustive: all histories of length <= L over a small alphabet
 	uniq := 0
 	alpha := []func() []string{
